@@ -1,0 +1,53 @@
+//go:build verif
+
+// Contracts for package p2ptls, checked by /verif (bfvc). Comment-only.
+package p2ptls
+
+// ---- C03: a peer certificate is accepted only with a valid key-binding signature ----
+// asn1Key(v) / asn1Sig(v): the PubKey and Signature fields of the signedKey structure encoded in v.
+//@ spec fun asn1Key(v bytes) bytes
+//@ spec fun asn1Sig(v bytes) bytes
+//@ func encoding/asn1.Unmarshal
+//@   trusted standard library; results as uninterpreted functions of the input
+//@   writes H_slice H_uint8
+//@   ensures ret1 == nil && istype(val, ptr(signedKey)) ==> content(unboxed(val, ptr(signedKey)).PubKey) == asn1Key(b) && content(unboxed(val, ptr(signedKey)).Signature) == asn1Sig(b)
+
+// sameOID(a, b): the two object identifiers are equal, element by element.
+//@ spec fun sameOID(a []int, b []int) bool = len(a) == len(b) && forall i int trigger a[i] :: 0 <= i && i < len(a) ==> a[i] == b[i]
+//@ func extensionIDEqual
+//@   loop 1 invariant -1 <= rangeindex && rangeindex < len(a) && forall i int trigger a[i] :: 0 <= i && i <= rangeindex ==> a[i] == b[i]
+//@   ensures ret <==> sameOID(a, b)
+
+// bound(pub, certPub, v): pub is the key encoded in the extension value v, and it verifies the
+// signature in v over "libp2p-tls-handshake:" followed by the certificate's own public key.
+//@ spec fun bound(pub iface, certPub iface, v bytes) bool = pubKeyPBok(asn1Key(v)) && rawPub(pub) == pubKeyFromPB(asn1Key(v)) && edVerify(rawPub(pub), "libp2p-tls-handshake:" ++ pkixOf(certPub), asn1Sig(v))
+
+// PubKeyFromCertChain returns a key only for a chain of exactly one certificate that verifies
+// against itself as the only root and whose first extension with the bifrost OID binds that key.
+//@ func PubKeyFromCertChain
+//@   noframe
+//@   requires forall i int trigger chain[i] :: 0 <= i && i < len(chain) ==> chain[i] != nil
+//@   loop 1 invariant -1 <= rangeindex && !found && cert.Extensions == old(chain[0].Extensions) && cert.PublicKey == old(chain[0].PublicKey) && extensionID == old(extensionID)
+//@   loop 1 invariant forall j int trigger old(chain[0].Extensions[j].Id) :: 0 <= j && j <= rangeindex ==> !old(sameOID(chain[0].Extensions[j].Id, extensionID))
+//@   loop 2 invariant cert.Extensions == old(chain[0].Extensions) && cert.PublicKey == old(chain[0].PublicKey) && extensionID == old(extensionID)
+//@   assert at exit: ret1 == nil ==> found && cert.PublicKey == old(chain[0].PublicKey)
+//@   assert at exit: ret1 == nil ==> bound(ret0, old(chain[0].PublicKey), content(keyExt.Value))
+//@   assert at exit: ret1 == nil ==> exists k int :: 0 <= k && k < len(old(chain[0].Extensions)) && old(sameOID(chain[0].Extensions[k].Id, extensionID)) && (forall j int :: 0 <= j && j < k ==> !old(sameOID(chain[0].Extensions[j].Id, extensionID))) && content(keyExt.Value) == old(content(chain[0].Extensions[k].Value))
+//@   ensures len(chain) != 1 ==> ret1 != nil
+//@   ensures ret1 == nil ==> ret0 != nil && verifiesIn(chain[0], chain[0])
+//@   ensures ret1 == nil ==> exists k int :: 0 <= k && k < len(old(chain[0].Extensions)) && old(sameOID(chain[0].Extensions[k].Id, extensionID)) && (forall j int :: 0 <= j && j < k ==> !old(sameOID(chain[0].Extensions[j].Id, extensionID))) && bound(ret0, old(chain[0].PublicKey), old(content(chain[0].Extensions[k].Value)))
+
+// The verification callback of a TLS config made for a given remote peer: it accepts (returns nil)
+// only if the presented chain is a single certificate that parses, PubKeyFromCertChain accepts it,
+// and - when a remote peer was required - that peer ID is the ID of the bound key.
+// the deferred recover handler only ever replaces the result by an error
+//@ func (*Identity).ConfigForPeer$1$1
+//@   inline
+
+//@ func (*Identity).ConfigForPeer$1
+//@   noframe
+//@   nosweep nil-deref
+//@   loop 1 invariant -1 <= rangeindex && len(chain) == len(rawCerts) && forall i int trigger chain[i] :: 0 <= i && i <= rangeindex ==> chain[i] != nil
+//@   assert at exit: err == nil ==> len(rawCerts) == 1
+//@   assert at exit: err == nil ==> pubKey != nil
+//@   assert at exit: err == nil ==> remote == "" || remote == mhEnc(0, pubKeyPB(rawPub(pubKey)))
